@@ -244,6 +244,11 @@ class CallsMixin:
             if len(pos) == 1 and pos[0].ty[0] == "list":
                 return [(s1, self.sum_list(s1, pos[0]))]
             raise Unsupported("sum form")
+        if n in ("any", "all") and len(pos) == 1 and pos[0].ty[0] == "list" and pos[0].ty[1] == ("bool",):
+            lst = pos[0]
+            nn = s1.length(lst.term, ("bool",)); el = s1.elems(lst.term, ("bool",)); i = z3.Int(fresh_name("i_" + n))
+            f = z3.Exists([i], z3.And(0 <= i, i < nn, z3.Select(el, i))) if n == "any" else z3.ForAll([i], z3.Implies(z3.And(0 <= i, i < nn), z3.Select(el, i)))
+            return [(s1, V(("bool",), f))]
         if n == "list":
             if not pos:
                 return [(s1, s1.new_list(("dyn",)))]
